@@ -398,13 +398,28 @@ def h_map_len(ex, st, frame, t, nf, args, dty):
     return [(Sym(o + z3.If(p, BV64(1), BV64(0)), "usize"), None)]
 
 
+def _fall_through(ex, st, frame, t, nf, args, dty, me):
+    """not a crate type after all: behave as if this summary did not exist (next matching summary, then the havoc list)"""
+    for rx, h in ex.summaries:
+        if h is me:
+            continue
+        if rx.search(nf):
+            return h(ex, st, frame, t, nf, args, dty)
+    if ex.havoc(nf):
+        ex.stats["calls_havoc"][nf] = ex.stats["calls_havoc"].get(nf, 0) + 1
+        v = ex.fresh(dty, st, "hv") if dty != "?" else Obj("?")
+        st.events.append(("call", nf, args, v))
+        return [(v, None)]
+    raise Unsupported("call to %s" % nf[:160])
+
+
 def h_ne_via_eq(ex, st, frame, t, nf, args, dty):
     """<T as PartialEq>::ne for a crate type: the provided method, i.e. the negation of the type's own (derived or
     hand-written) eq, which is executed."""
     eqname = t.func[:-2] + "eq" if t.func.endswith("ne") else None
     body = ex.find_body(eqname) if eqname else None
     if body is None:
-        raise Unsupported("call to %s (no eq body to negate)" % nf[:120])
+        return _fall_through(ex, st, frame, t, nf, args, dty, h_ne_via_eq)
     ex.push_frame(st, body, args, t.dest, t.targets.get("return"))
 
     def w(ex_, st_, val):
@@ -419,7 +434,7 @@ def h_ord_via_partial_cmp(ex, st, frame, t, nf, args, dty):
     pname = t.func[:-len(op)] + "partial_cmp"
     body = ex.find_body(pname)
     if body is None:
-        raise Unsupported("call to %s (no partial_cmp body)" % nf[:120])
+        return _fall_through(ex, st, frame, t, nf, args, dty, h_ord_via_partial_cmp)
     ex.push_frame(st, body, args, t.dest, t.targets.get("return"))
 
     def w(ex_, st_, val, _op=op):
